@@ -17,6 +17,7 @@ ASSUMPTIONS = ["itertools::into_group_map and std sort behave as documented", "r
 
 
 def run(ctx):
+    _wiring(ctx)
     ctx.rule('R17.1', 'd <= max_distance; len >= min_votes; weight = sum(max_dist - d)')
     n = V.rule_filter_and_weights(ctx, 'R17.1', V.TOPN, 'topn')
     n += V.rule_filter_and_weights(ctx, 'R17.1', V.BEST, 'bestfit')
@@ -33,3 +34,10 @@ def run(ctx):
     n = V.rule_hungarian(ctx, 'R17.5')
     n += V.rule_hungarian_matrix(ctx, 'R17.5')
     ctx.floor('R17.5', n, 5)
+
+
+def _wiring(ctx):
+    """name-agreement wiring of the configuration values this property depends on (rules/wiring.py)"""
+    import wiring
+    ctx.rule('R17.6', 'configuration plumbing: same-named fields / parameters / setters / call arguments are not crossed')
+    ctx.floor('R17.6', wiring.run(ctx, 'R17.6', {'topn', 'max_distance', 'min_votes'}), 5)
